@@ -298,9 +298,107 @@ cache_hist!(cache_hist3_b12, 3, 12);
 cache_hist!(cache_hist3_b32, 3, 32);
 cache_hist!(cache_hist4_min, 4, 0);
 
-// Sequences with CONCRETE operation kinds (0 read, 1 write, 2 seek Start, 3 set_len,
-// 4 flush, 5 seek Current/End) and symbolic arguments/data: all 36 two-call and all
-// 216 three-call sequences are generated by vlib/seqs.py (h_cache_gen.rs).
+// Sequences with CONCRETE operations (kind and argument from a fixed table of 18
+// variants sitting on / next to the 8-byte window and the 12-byte initial length)
+// and symbolic DATA: all 324 two-call sequences and a curated set of longer ones
+// are generated by vlib/seqs.py (h_cache_gen.rs).  Symbolic operation choice
+// (cache_hist*) explodes in CBMC (slices of a heap Vec with symbolic bounds).
+pub fn op_c(s: &mut Stream<TF>, m: &mut Model, code: u8) {
+    match code {
+        0 => do_read(s, m, 3),
+        1 => do_read(s, m, 6),
+        2 => do_write(s, m, 2),
+        3 => do_write(s, m, 6),
+        4 => do_write(s, m, 10),
+        5 => do_seek(s, m, SeekFrom::Start(0)),
+        6 => do_seek(s, m, SeekFrom::Start(4)),
+        7 => do_seek(s, m, SeekFrom::Start(10)),
+        8 => do_seek(s, m, SeekFrom::Start(25)),
+        9 => do_seek(s, m, SeekFrom::Current(-3)),
+        10 => do_seek(s, m, SeekFrom::Current(5)),
+        11 => do_seek(s, m, SeekFrom::End(-2)),
+        12 => do_seek(s, m, SeekFrom::End(1)),
+        13 => do_set_len(s, m, 0),
+        14 => do_set_len(s, m, 7),
+        15 => do_set_len(s, m, 20),
+        16 => do_flush(s),
+        _ => do_set_len(s, m, 12),
+    }
+    assert!(s.len() == m.len as u64, "C06: len() is not current");
+    assert!(sacc::position(s) == m.pos as u64, "C06: position differs from the byte-vector cursor");
+}
+
+fn do_read(s: &mut Stream<TF>, m: &mut Model, n: usize) {
+    let mut buf = [0u8; 10];
+    let (r, _) = split(s.read(&mut buf[..n]));
+    assert!(r.is_some(), "C06: read failed without a fault");
+    let got = r.unwrap();
+    let avail = m.len - m.pos;
+    assert!(got <= n && got <= avail, "C06: read returned more bytes than requested or than the stream holds");
+    assert!(got > 0 || n == 0 || avail == 0, "C06: read returned 0 before the end of the stream");
+    let mut ok = true;
+    let mut k = 0;
+    while k < got {
+        ok &= buf[k] == m.b[m.pos + k];
+        k += 1;
+    }
+    assert!(ok, "C06: read returned bytes that differ from the bytes last written");
+    m.pos += got;
+}
+
+fn do_write(s: &mut Stream<TF>, m: &mut Model, n: usize) {
+    kani::assume(m.pos + n <= CAP);
+    let buf: [u8; 10] = kani::any();
+    let (r, _) = split(s.write(&buf[..n]));
+    assert!(r.is_some(), "C06: write failed without a fault");
+    let got = r.unwrap();
+    assert!(got <= n, "C06: write claims more bytes than given");
+    assert!(got > 0 || n == 0, "C06: write accepted nothing of a non-empty buffer");
+    let mut i = 0;
+    while i < got {
+        m.b[m.pos + i] = buf[i];
+        i += 1;
+    }
+    m.pos += got;
+    if m.pos > m.len {
+        m.len = m.pos;
+    }
+}
+
+fn do_seek(s: &mut Stream<TF>, m: &mut Model, arg: SeekFrom) {
+    let target: i64 = match arg {
+        SeekFrom::Start(x) => x as i64,
+        SeekFrom::Current(x) => m.pos as i64 + x,
+        SeekFrom::End(x) => m.len as i64 + x,
+    };
+    let (r, k) = split(s.seek(arg));
+    if target >= 0 && target <= m.len as i64 {
+        assert!(r == Some(target as u64), "C06: seek inside [0, len] must succeed and return the new position");
+        m.pos = target as usize;
+    } else {
+        assert!(r.is_none() && k == Some(ErrorKind::InvalidInput), "C06/C10: seek outside [0, len] must fail with InvalidInput");
+    }
+}
+
+fn do_set_len(s: &mut Stream<TF>, m: &mut Model, x: usize) {
+    let (r, _) = split(s.set_len(x as u64));
+    assert!(r.is_some(), "C06: set_len failed without a fault");
+    let mut i = m.len;
+    while i < x {
+        m.b[i] = 0;
+        i += 1;
+    }
+    m.len = x;
+    if m.pos > x {
+        m.pos = x;
+    }
+}
+
+fn do_flush(s: &mut Stream<TF>) {
+    let (r, _) = split(s.flush());
+    assert!(r.is_some(), "C06/C13: flush failed without a fault");
+}
+
 macro_rules! cache_seq {
     ($name:ident, [$($op:expr),*], $maxbuf:expr) => {
         #[kani::proof]
@@ -312,7 +410,7 @@ macro_rules! cache_seq {
             let mut model = init();
             let arc = Arc::new(RwLock::new(tiny_minialloc()));
             let mut s = Stream::new(&arc, 1, $maxbuf);
-            $( step(&mut s, &mut model, $op); )*
+            $( op_c(&mut s, &mut model, $op); )*
             let (r, _) = split(s.flush());
             assert!(r.is_some(), "C13: final flush failed without a fault");
             {
@@ -337,12 +435,8 @@ macro_rules! cache_seq {
         }
     };
 }
-cache_seq!(cache_k1_read, [0], 0);
-cache_seq!(cache_k1_write, [1], 0);
-cache_seq!(cache_k1_seek, [2], 0);
-cache_seq!(cache_k1_setlen, [3], 0);
-cache_seq!(cache_k2_write_read, [1, 0], 0);
-cache_seq!(cache_k3_seek_write_read, [2, 1, 0], 0);
+
+include!("h_cache_gen.rs"); // generated by vlib/seqs.py at overlay build time
 
 /// Same result as `v.resize(n, val)` for n <= CAP, through loops with a fixed
 /// bound instead of an allocation of symbolic size (the overlay routes the two
